@@ -130,3 +130,13 @@ def run(ctx):
                 "states = distinct schedule prefixes (decision nodes) visited; traces_validated = executions on the real code "
                 "+ TLC paths replayed as forced schedules" % (maxlen, ctx.q(2, 3), bound))
     ctx.assumptions = ["sequentially consistent atomics", "cap of %d executions per history (reported if hit); thorough adds all length-4 histories at 1 preemption" % cap]
+
+
+def replay(ctx, path):
+    """Re-run one recorded schedule without the explorer: ./check C03 --replay <file>"""
+    import json as _json
+    r = _json.load(open(path))["replay"]
+    p = subprocess.run([exe(), "replay", r["history"], r.get("schedule", "")], capture_output=True, text=True)
+    print(p.stdout[-3000:])
+    print("replay exit", p.returncode)
+    return 1 if p.returncode else 0
